@@ -10,7 +10,7 @@
    NOT proved: that build_automaton passes aut_cert for every grammar and fuel (it is evaluated instead). *)
 From Coq Require Import List ZArith Bool.
 From TM Require Import Gram.Cfg Gram.LalrRef Gram.Prec Gram.Prec_proofs Gram.PTables Gram.LalrTables.
-From TM Require Import Gram.LalrSpec Gram.LalrSpec_proofs Gram.LalrSpec_proofs2 Gram.LalrCert Gram.LalrCert_proofs.
+From TM Require Import Gram.LalrSpec Gram.LalrSpec_proofs Gram.LalrSpec_proofs2 Gram.LalrSpec_proofs3 Gram.LalrCert Gram.LalrCert_proofs.
 Import ListNotations.
 Local Open Scope Z_scope.
 
@@ -67,6 +67,19 @@ Theorem C03_lalr_la_exact :
   forall q it x, In x (la_get (lalr_la g a fuel) q it) <-> lalr1 g a q it x.
 Proof. exact lalr_la_exact. Qed.
 
+(* The definition of LR(1)-validity used above always contains the textbook one (a single closure rule with
+   b in FIRST(beta a)), and coincides with it when the grammar has a terminal and every symbol used in a rule
+   is nullable or has a non-empty FIRST (in particular for reduced grammars). *)
+Theorem C03_lr1_valid_contains_textbook :
+  forall g i gamma it x, lr1_valid_tb g i gamma it x -> lr1_valid g i gamma it x.
+Proof. exact tb_included. Qed.
+
+Theorem C03_lr1_valid_is_textbook :
+  forall g, 0 < g_terms g ->
+  (forall r X, In r (g_rules g) -> In X (r_rhs r) -> (exists b, first_sym g X b) \/ nullable_sym g X) ->
+  forall i gamma it x, lr1_valid g i gamma it x <-> lr1_valid_tb g i gamma it x.
+Proof. exact lr1_valid_textbook. Qed.
+
 (* FIRST and nullable compute only derivable facts. *)
 Theorem C03_first_sound :
   forall g, (forall x, In x (nullable_set g) -> nullable_sym g x) /\
@@ -102,3 +115,5 @@ Print Assumptions C03_lalr_la_sound.
 Print Assumptions C03_lalr_la_complete.
 Print Assumptions C03_lalr_la_exact.
 Print Assumptions C03_first_sound.
+Print Assumptions C03_lr1_valid_contains_textbook.
+Print Assumptions C03_lr1_valid_is_textbook.
